@@ -5,7 +5,7 @@ from ..ref import P, L, to32, le
 
 REQUIRED = ['dec:torsion-enc', 'dec:noncanon-y', 'dec:reject', 'dec:accept', 'dec:x0-signbit', 'rel:Q=P', 'rel:Q=-P',
             'rel:Q=P+T', 'rel:indep', 'history', 'pred:identity', 'pred:small', 'pred:mixed', 'pred:prime', 'eq:scaled',
-            'roundtrip', 'sum-empty']
+            'roundtrip', 'sum-empty', 'cond']
 
 
 class Reg:
@@ -62,7 +62,7 @@ def preds(ctx, r, cls=None):
 def step(ctx, regs, op=None):
     rng = ctx.rng
     op = op or rng.choice(['add', 'add', 'sub', 'neg', 'dbl', 'mulcof', 'sum', 'eq', 'preds', 'roundtrip', 'csel',
-                           'addassign', 'subassign', 'pow2', 'valid'])
+                           'addassign', 'subassign', 'pow2', 'valid', 'cassign', 'cswap', 'cneg'])
     p = rng.choice(regs)
     q = rng.choice(regs)
     if op in ('add', 'addassign'):
@@ -115,11 +115,23 @@ def step(ctx, regs, op=None):
         rid2 = ctx.add('ed.decompress', ctx.ref(rid, 0), expect=pts.expect_ed(p.aff), cls='roundtrip')
         ctx.add('ed.eq', p.tok, ctx.ref(rid2, 1), expect=['T', 'T'], cls=['roundtrip', 'eq:scaled'])
         regs.append(Reg(ctx.ref(rid2, 1), p.aff, p.a, p.j))
-    elif op == 'csel':
+    elif op in ('csel', 'cassign'):
         ch = rng.random() < 0.5
         s = q if ch else p
-        rid = ctx.add('ed.csel', p.tok, q.tok, B(ch), expect=pts.expect_ed(s.aff), cls='history')
+        rid = ctx.add('ed.' + op, p.tok, q.tok, B(ch), expect=pts.expect_ed(s.aff), cls=['history', 'cond'])
         regs.append(Reg(ctx.ref(rid, 1), s.aff, s.a, s.j))
+    elif op == 'cswap':
+        ch = rng.random() < 0.5
+        x, y = (q, p) if ch else (p, q)
+        rid = ctx.add('ed.cswap', p.tok, q.tok, B(ch), expect=pts.both(pts.expect_ed(x.aff), pts.expect_ed(y.aff, idx=2)),
+                      cls=['history', 'cond'])
+        regs.append(Reg(ctx.ref(rid, 1), x.aff, x.a, x.j))
+        regs.append(Reg(ctx.ref(rid, 3), y.aff, y.a, y.j))
+    elif op == 'cneg':
+        ch = rng.random() < 0.5
+        aff = ref.aff_neg(p.aff) if ch else p.aff
+        rid = ctx.add('ed.cneg', p.tok, B(ch), expect=pts.expect_ed(aff), cls=['history', 'cond'])
+        regs.append(Reg(ctx.ref(rid, 1), aff, (-p.a) % L if ch else p.a, (-p.j) % 8 if ch else p.j))
 
 
 def directed(ctx, pool):
